@@ -19,8 +19,14 @@ CheckEv == Step /\ e.ev = "check" /\ (CheckOK(e.f, e.err)) = TRUE
 CheckAfter == Step /\ e.ev = "checkafter" /\ e.err = ""
 \* C14
 OpenEv == Step /\ e.ev = "dopen" /\ (e.err = "" \/ e.headDamaged) = TRUE
+OpenKF == IF Len(Trace) > 0 /\ Trace[1].ev = "config" THEN Range(Trace[1].kf) ELSE {}
+\* KF-C14-1 (open known finding): the log file of the segment with base offset 0 zero-filled from byte 0 loses its
+\* V2 file header, is taken for a header-less V1 file, and zero bytes parse as valid empty V1 records
+\* (the signature is the damage itself: the answers then read segment 0 as empty V1 records, without panicking)
+KFZeroHead == "KF-C14-1" \in OpenKF /\ e.zerohead /\ e.r.err # "Panic"
 ReadEv == /\ Step /\ e.ev = "dread"
-          /\ (DamagedReadOK(e.expected, e.touches, e.other, e.r) /\ AllocOK(e.alloc, e.fileBytes)) = TRUE
+          /\ IF DamagedReadOK(e.expected, e.touches, e.other, e.r) /\ AllocOK(e.alloc, e.fileBytes) THEN TRUE
+             ELSE KFZeroHead /\ PrintT(<<"KF-HIT", {"KF-C14-1"}, l>>)
 
 \* a file cut short: whatever is returned is a published message, unchanged; no panic
 TruncEv == /\ Step /\ e.ev = "dtrunc"
